@@ -151,6 +151,80 @@ def run(ctx):
         ctx.ob("R19.7", q, reset == allsent, site=A.where(fq), detail={"sentinel_fields": sorted(allsent), "reset_here": sorted(reset)},
                what="%s leaves %s untouched: a cleared slot keeps a stale binding" % (q, sorted(allsent - reset)))
 
+
+    # ---- R19.8
+    ctx.rule("R19.8", "STATE-INIT: every member of the manager that is tested for `not yet set` by its sign (x < 0 / x >= 0) is given a value by the constructor - the NRPN bytes are such members; read uninitialised, the first controller message is interpreted against whatever the memory held")
+    sign_tested = {}
+    for q_, fns_ in u.functions.items():
+        for f_ in fns_:
+            if not (A.loc(f_)[0] or "").endswith(UNIT) or u.body(f_) is None:
+                continue
+            for x in A.walk(u.body(f_)):
+                if x.get("kind") == "BinaryOperator" and x.get("opcode") in ("<", ">=") and A.int_literal(A.kids(x)[1]) == 0:
+                    l = A.strip_casts(A.kids(x)[0])
+                    if l.get("kind") == "MemberExpr" and l.get("referencedMemberDecl"):
+                        base = A.strip_casts(A.kids(l)[0]) if A.kids(l) else {}
+                        # members of the manager itself (this->X, this->S.X), not of a slot reached through the array
+                        if base.get("kind") in ("CXXThisExpr",) or (base.get("kind") == "MemberExpr" and A.strip_casts(A.kids(base)[0]).get("kind") == "CXXThisExpr" and "*" not in (A.qtype(base) or "")):
+                            sign_tested[l.get("referencedMemberDecl")] = member_text(l)
+    ctor = u.function("AutomationMgr::AutomationMgr")
+    inited = set()
+    for ci in A.kids(ctor):
+        if ci.get("kind") == "CXXCtorInitializer" and (ci.get("anyInit") or {}).get("id"):
+            inited.add(ci["anyInit"]["id"])
+    for x in A.walk(u.body(ctor)):
+        if x.get("kind") == "BinaryOperator" and x.get("opcode") == "=":
+            l = A.strip_casts(A.kids(x)[0])
+            if l.get("kind") == "MemberExpr":
+                inited.add(l.get("referencedMemberDecl"))
+        if x.get("kind") == "CallExpr" and A.callee_name(x) == "memset":
+            for y in A.walk(A.kids(x)[1]):
+                if y.get("kind") == "MemberExpr" and A.strip_casts(A.kids(y)[0]).get("kind") == "CXXThisExpr":
+                    # memset(&this->S, v, sizeof S): every member of S
+                    rec_ = u.by_id.get(y.get("referencedMemberDecl"))
+                    for fid_ in list(sign_tested):
+                        if u.parent.get(fid_) is not None and rec_ is not None and A.qtype(rec_) and (u.parent[fid_].get("name") or "?") in A.qtype(rec_):
+                            inited.add(fid_)
+    ctx.require(len(sign_tested) >= 2, "R19.8: no sign-tested member of the manager found (%d)" % len(sign_tested))
+    for fid_, txt_ in sorted(sign_tested.items(), key=lambda kv: kv[1]):
+        ctx.ob("R19.8", "constructor sets %s" % txt_, fid_ in inited, site=A.where(ctor),
+               key="R19.8:%s" % txt_,
+               what="%s is tested by its sign (`not received yet` is negative) but the constructor leaves it uninitialised" % txt_)
+
+    # ---- R19.9
+    ctx.rule("R19.9", "LEARN-IDENTITY: handleMidi binds a waiting slot (stores midi_cc / midi_nrpn) only with a controller number computed in that call: on every path from the declaration of the number to such a store, the number has been assigned from the message (a complete NRPN, or channel and controller) - an incomplete NRPN sequence carries no identity yet")
+    from ..rules import flow as FL9
+    from ..rules import guard as G9
+    P9 = ctx.program_of(UNIT)
+    m9 = ctx.ir(UNIT)
+    hm = [f_ for f_ in m9.functions.values() if re.match(r'^rtosc::AutomationMgr::handleMidi\(', P9.dm(f_.name))]
+    ctx.require(len(hm) == 1, "R19.9: IR of AutomationMgr::handleMidi not found")
+    hm = hm[0]
+    # the variable stored into midi_cc / midi_nrpn
+    fh = u.function("AutomationMgr::handleMidi")
+    src_ids = set()
+    for x in A.walk(u.body(fh)):
+        if x.get("kind") == "BinaryOperator" and x.get("opcode") == "=":
+            l = A.strip_casts(A.kids(x)[0])
+            if l.get("kind") == "MemberExpr" and l.get("name") in ("midi_cc", "midi_nrpn") and A.ref_id(A.kids(x)[1]):
+                src_ids.add(A.ref_id(A.kids(x)[1]))
+    ctx.require(len(src_ids) == 1, "R19.9: the controller number bound to a learning slot is not one local variable (%d)" % len(src_ids))
+    idname = u.by_id[src_ids.pop()].get("name")
+    slot9 = FL9.slot_of_local(hm, idname)
+    ctx.require(slot9 is not None, "R19.9: local `%s` not found in the IR of handleMidi" % idname)
+    st9 = [i_ for i_ in hm.insts() if i_.op == "store" and G9.parse_store(i_)[1] == slot9]
+    ctx.require(len(st9) >= 2, "R19.9: assignments of `%s` not found" % idname)
+    init9 = st9[0]
+    assigns9 = st9[1:]
+    loads9 = {i_.res for i_ in hm.insts() if i_.op == "load" and G9.parse_load(i_) == slot9}
+    binds9 = [i_ for i_ in hm.insts() if i_.op == "store" and G9.parse_store(i_)[0] in loads9 and
+              "AutomationSlot" in (hm.defs().get(G9.parse_store(i_)[1]).text if hm.defs().get(G9.parse_store(i_)[1]) is not None else "")]
+    ctx.require(len(binds9) >= 2, "R19.9: the stores that bind a slot (midi_cc / midi_nrpn) were not found in the IR (%d)" % len(binds9))
+    esc9 = FL9.escapes(hm, init9, assigns9, binds9)
+    ctx.ob("R19.9", "handleMidi: learn step", esc9 is None, site=(esc9.where() if esc9 is not None else binds9[0].where()), detail={"controller_number": idname, "assignments": len(assigns9), "binding_stores": len(binds9)},
+           key="R19.9:handleMidi:learn",
+           what="handleMidi can bind a learning slot at %s with `%s` still at its initial value: a message that identifies no controller (an incomplete NRPN sequence) is learned as controller 0" % (esc9.where() if esc9 is not None else "", idname))
+
     # ---- R19.6
     um = u.function("AutomationMgr::updateMapping")
     read_fields = set()
